@@ -45,7 +45,25 @@ type vEntry struct {
 	raw    any
 	str    string
 	hasStr bool
+	// text: the provider's own text (the YAML bytes it was given), nil when the entry was built from a Go value;
+	// the direct oracles use THIS, never the string representation read back from the Retrieved
+	text *string
 }
+
+// the text of an entry as the oracles see it
+func (e *vEntry) oracleText() (string, bool) {
+	switch {
+	case e.text != nil:
+		return *e.text, true
+	case e.hasStr:
+		return e.str, true
+	}
+	s, ok := e.raw.(string)
+	return s, ok
+}
+
+// violations of "a provider built from text keeps that text" found while building tables (reported by the test)
+var vTextLost []string
 
 type vCfg struct {
 	def     string
@@ -70,10 +88,13 @@ func vYAML(y string) *vEntry {
 	if err != nil {
 		return &vEntry{err: true}
 	}
-	if !vSupported(r.rawConf) {
-		return &vEntry{raw: y, str: y, hasStr: true}
+	if got, err := r.AsString(); err != nil || got != y {
+		vTextLost = append(vTextLost, fmt.Sprintf("NewRetrievedFromYAML(%q).AsString() = %q, %v", y, got, err))
 	}
-	return &vEntry{raw: r.rawConf, str: r.stringRepresentation, hasStr: r.isSetString}
+	if !vSupported(r.rawConf) {
+		return &vEntry{raw: y, str: y, hasStr: true, text: &y}
+	}
+	return &vEntry{raw: r.rawConf, str: r.stringRepresentation, hasStr: r.isSetString, text: &y}
 }
 
 func vSupported(v any) bool {
@@ -440,7 +461,7 @@ func vGenTokens(r *vRand, c *vCfg, names []string) []vTok {
 			ts = append(ts, vTok{2, "$"})
 		case 3:
 			nm := names[r.Intn(len(names))]
-			if c.def != "" && r.Intn(3) == 0 {
+			if r.Intn(3) == 0 { // no scheme: a reference under a default scheme, plain text without one
 				ts = append(ts, vTok{3, nm})
 			} else {
 				ts = append(ts, vTok{3, "env:" + nm})
@@ -478,13 +499,15 @@ func vTokSem(ts []vTok, c *vCfg) (string, bool) {
 		case 3:
 			key := t.text
 			if !strings.Contains(key, ":") {
+				if c.def == "" { // not a reference at all
+					sb.WriteString("${" + key + "}")
+					hasText = true
+					continue
+				}
 				key = c.def + ":" + key
 			}
 			e := c.tbl[key]
-			v := e.str
-			if !e.hasStr {
-				v = e.raw.(string)
-			}
+			v, _ := e.oracleText()
 			sb.WriteString(v)
 			if v != "" {
 				heavyRefs++
@@ -720,6 +743,10 @@ func (d *vDeep) semOf(ts []vTok) string {
 		case 3:
 			key := t.text
 			if !strings.Contains(key, ":") {
+				if d.c.def == "" {
+					sb.WriteString("${" + key + "}")
+					continue
+				}
 				key = d.c.def + ":" + key
 			}
 			if it, ok := d.l1[key]; ok {
@@ -727,11 +754,8 @@ func (d *vDeep) semOf(ts []vTok) string {
 				continue
 			}
 			e := d.c.tbl[key]
-			if e.hasStr {
-				sb.WriteString(e.str)
-			} else {
-				sb.WriteString(e.raw.(string))
-			}
+			v, _ := e.oracleText()
+			sb.WriteString(v)
 		}
 	}
 	return sb.String()
@@ -748,6 +772,12 @@ func (d *vDeep) itemOver(r *vRand, names []string, must string) vItem {
 		ts = append(ts, vTok{0, "e"})
 	}
 	return vItem{vTokString(ts), d.semOf(ts)}
+}
+
+// a member that is exactly one reference to a level-0 entry with non-empty text
+func (d *vDeep) bare(r *vRand) vItem {
+	n := "env:" + []string{"A", "B", "C", "N"}[r.Intn(4)]
+	return vItem{"${" + n + "}", d.semOf([]vTok{{3, n}})}
 }
 
 func (d *vDeep) item(r *vRand) vItem {
@@ -962,6 +992,22 @@ func vProbeDoublingCycle(out *vOut, st map[string]int) {
 	out.Oracle("resolve-does-not-terminate", term, "doubling cycle probe: the child neither returned nor hit the memory guard within 180 s: "+strings.ReplaceAll(tail, "\t", " "))
 }
 
+func vdAllNames() []string {
+	out := []string{}
+	prev := []string{""}
+	for l := 1; l <= 3; l++ {
+		var cur []string
+		for _, p := range prev {
+			for _, ch := range []string{"a", ":"} {
+				cur = append(cur, p+ch)
+			}
+		}
+		out = append(out, cur...)
+		prev = cur
+	}
+	return out
+}
+
 // ---- the test -------------------------------------------------------------------------------------------------
 func TestVerifC12(t *testing.T) {
 	out := vOpen()
@@ -986,6 +1032,39 @@ func TestVerifC12(t *testing.T) {
 			out.Oracle("resolve-does-not-terminate", term, "Resolve did not return within 120 s")
 		}
 		return o.hung
+	}
+
+	// -- probe mode (props/C12/check.py, after a tie obligation broke): ONLY the values listed in the file, one
+	// "<default scheme>\t<value>" per line, each resolved as the single key of a single source over a table that
+	// answers every name over {a,:} up to length 3 (schemes env, aa); the clause checkers judge the outcome
+	if pf := os.Getenv("VERIF_C12_PROBES"); pf != "" {
+		b, err := os.ReadFile(pf)
+		if err != nil {
+			t.Fatal(err)
+		}
+		for _, line := range strings.Split(strings.TrimRight(string(b), "\n"), "\n") {
+			parts := strings.SplitN(line, "\t", 2)
+			if len(parts) != 2 {
+				continue
+			}
+			c := vNewCfg(parts[0], "env", "aa")
+			for _, sc := range []string{"env", "aa"} {
+				for _, nm := range vdAllNames() {
+					c.put(sc+":"+nm, &vEntry{raw: "v" + strings.ReplaceAll(nm, ":", ".")})
+				}
+			}
+			c.put("env:a", &vEntry{raw: "X$"}) // the replacement used by the replaceUnescaped table
+			srcs := []any{map[string]any{"k": parts[1]}}
+			c.setSources(srcs)
+			o := vObserve(c, 1)
+			term := vCaseTerm(c, srcs, o)
+			if hung(term, o) {
+				return
+			}
+			emit(true, term)
+			st["probe-cases"]++
+		}
+		return
 	}
 
 	// -- fixed corpus: the strings of the reading-time probe, the two repaired defects, limits
@@ -1148,7 +1227,7 @@ func TestVerifC12(t *testing.T) {
 				if !strings.Contains(full, ":") {
 					full = def + ":" + full
 				}
-				if e := c.tbl[full]; e != nil && !e.err && e.hasStr && !strings.Contains(e.str, "${") && !strings.HasPrefix(full, "src:") {
+				if e := c.tbl[full]; e != nil && !e.err && (e.hasStr || e.text != nil) && !strings.Contains(e.str, "${") && !strings.HasPrefix(full, "src:") {
 					switch e.raw.(type) {
 					case nil, bool, int, float64:
 						typed[key] = e
@@ -1171,7 +1250,8 @@ func TestVerifC12(t *testing.T) {
 		if o.errCode == -1 {
 			for k, e := range typed {
 				st["wild-typed-oracle"]++
-				wantS := strings.ReplaceAll(e.str, "$$", "$")
+				txt, _ := e.oracleText()
+				wantS := strings.ReplaceAll(txt, "$$", "$")
 				if !reflect.DeepEqual(o.tsm[k], e.raw) {
 					out.Oracle("whole-value-typed", term, fmt.Sprintf("key %s = %q: ToStringMap gives %#v, the provider's typed value is %#v", k, m[k], o.tsm[k], e.raw))
 				}
@@ -1245,6 +1325,9 @@ func TestVerifC12(t *testing.T) {
 						it := d.item(r)
 						mm["h"], wm["h"] = []any{it.text, "plain"}, []any{it.sem, "plain"}
 					}
+					if r.Intn(3) == 0 { // a typed whole-value reference inside a map inside a list
+						mm["t"], wm["t"] = "${env:N}", d.c.tbl["env:N"].raw
+					}
 					l[j], w[j] = mm, wm
 				}
 				m[key], wantT[key] = l, w
@@ -1279,6 +1362,9 @@ func TestVerifC12(t *testing.T) {
 				w := make([]string, n)
 				for j := range l {
 					it := d.item(r)
+					if r.Intn(4) == 0 { // a member that IS one reference (typed value, its text for a string target)
+						it = d.bare(r)
+					}
 					l[j], w[j] = it.text, it.sem
 				}
 				m[key], wantL[key] = l, w
@@ -1288,6 +1374,9 @@ func TestVerifC12(t *testing.T) {
 				w := map[string]string{}
 				for j, n := 0, 2+r.Intn(3); j < n; j++ {
 					it := d.item(r)
+					if r.Intn(4) == 0 {
+						it = d.bare(r)
+					}
 					mm["f"+strconv.Itoa(j)], w["f"+strconv.Itoa(j)] = it.text, it.sem
 				}
 				m[key], wantM[key] = mm, w
@@ -1370,9 +1459,16 @@ func TestVerifC12(t *testing.T) {
 		c.put("tt:P", &vEntry{raw: name})
 		c.put("tt:R", &vEntry{raw: "x" + ref + "y"})
 		c.put("tt:YL", vYAML("[\"a\", \""+ref+"\"]"))
+		c.put("tt:YM", vYAML("{\"a\": \"x\", \"b\": \""+ref+"\"}"))
 		var val any
 		escaped := false
-		switch r.Pick(22, 22, 10, 8, 10, 8, 8, 12) {
+		switch r.Pick(20, 20, 9, 7, 9, 7, 7, 10, 6, 5) {
+		case 8:
+			val = "${tt:YM}"
+			st["dollar-name-in-provider-map"]++
+		case 9:
+			val = []any{"p", map[string]any{"u": "x", "v": ref}}
+			st["dollar-name-in-map-in-list"]++
 		case 0:
 			val = ref
 			st["dollar-name-whole"]++
@@ -1688,6 +1784,13 @@ func TestVerifC12(t *testing.T) {
 			out.Oracle("merge", term, fmt.Sprintf("reference-free sources: Resolve failed with class %d", o.errCode))
 		} else if !vEq(want, o.tsm) {
 			out.Oracle("merge", term, fmt.Sprintf("resolved %v, right-biased merge %v", o.tsm, want))
+		}
+	}
+	seenLost := map[string]bool{}
+	for _, l := range vTextLost {
+		if !seenLost[l] {
+			seenLost[l] = true
+			out.Oracle("provider-text-lost", "(((\"\"%string, [], []), [], (WObsErr 95)))", "a provider value built from text must keep that text for embedding and string fields: "+l)
 		}
 	}
 	_ = os.Getenv
